@@ -20,6 +20,14 @@ var verifFmtSeeds = []string{
 	// 4: single-line elements holding a children slot / a component call (the shape of the
 	// known findings C08/C09-single-line-element-with-child-lacking-trailing-space)
 	"package p\n\ntempl f() {§<em>{ children... }</em>§<span>@f()</span>§}\n",
+	// 5: Go value inside a script element followed by whitespace (kept verbatim by the generator)
+	"package p\n\ntempl g(d string) {\n\t<script>let a = {{ d }}§let b = 2; let c = {{ d }} + 1;</script>§<p>x</p>\n}\n",
+	// 6: inline elements with multi-line children directly followed by text / another inline element
+	"package p\n\ntempl h(n string) {\n\t<div>\n\t\t<a>\n\t\t\tx\n\t\t</a>.§<span>\n\t\t\ty\n\t\t</span><b>c</b>§<em>\n\t\t\tz\n\t\t</em>{ n }\n\t</div>\n}\n",
+	// 7: raw Go code followed by content on the same line inside a single-line element
+	"package p\n\ntempl i(xs []string) {§<div>{{ first := xs[0] }}{ first }</div>§}\n",
+	// 8: attribute expression ending in a block comment, expression with trailing comment
+	"package p\n\ntempl j(c string) {§<div class={ \"a\", c /* extra */ }>{ c }</div>§}\n",
 }
 
 // verifFill replaces the markers of a seed: gap g (in order) by gaps[g], text marker by text.
@@ -147,6 +155,56 @@ func verifFileHasInlineNonTrailer(src string) bool {
 	for _, n := range tf.Nodes {
 		if t, ok := n.(parser.HTMLTemplate); ok {
 			found = verifInlineNonTrailer(t.Children) || found
+		}
+	}
+	return found
+}
+
+// verifTightBeforeIndentedInline: somewhere a node that is directly followed (no whitespace
+// in the source) by an inline element whose children span several lines. The formatter
+// treats such an element as a block for layout and forces a line break in front of it, which
+// is parsed back as whitespace and rendered as a space (known finding of C08).
+func verifTightBeforeIndentedInline(nodes []parser.Node) bool {
+	found := false
+	for i, n := range nodes {
+		if i+1 < len(nodes) {
+			if next, ok := nodes[i+1].(parser.Element); ok && next.IndentChildren && !next.IsBlockElement() {
+				if wt, ok := n.(parser.WhitespaceTrailer); ok && wt.Trailing() == parser.SpaceNone {
+					found = true
+				}
+			}
+		}
+		switch n := n.(type) {
+		case parser.Element:
+			found = verifTightBeforeIndentedInline(n.Children) || found
+		case parser.IfExpression:
+			found = verifTightBeforeIndentedInline(n.Then) || found
+			for _, ei := range n.ElseIfs {
+				found = verifTightBeforeIndentedInline(ei.Then) || found
+			}
+			found = verifTightBeforeIndentedInline(n.Else) || found
+		case parser.ForExpression:
+			found = verifTightBeforeIndentedInline(n.Children) || found
+		case parser.SwitchExpression:
+			for _, c := range n.Cases {
+				found = verifTightBeforeIndentedInline(c.Children) || found
+			}
+		case parser.TemplElementExpression:
+			found = verifTightBeforeIndentedInline(n.Children) || found
+		}
+	}
+	return found
+}
+
+func verifFileHasTightBeforeIndentedInline(src string) bool {
+	tf, err := parser.ParseString(src)
+	if err != nil {
+		return false
+	}
+	found := false
+	for _, n := range tf.Nodes {
+		if t, ok := n.(parser.HTMLTemplate); ok {
+			found = verifTightBeforeIndentedInline(t.Children) || found
 		}
 	}
 	return found
